@@ -78,7 +78,8 @@ def run_driver(repo, out):
     """cargo +nightly check with the driver as workspace wrapper; fresh target dir, removed
     afterwards (cargo's freshness cache would silently skip the wrapper on a warm dir)."""
     build_driver()
-    td = "/var/tmp/sverif-td-%d-%d" % (os.getpid(), int(time.time() * 1000) % 100000)
+    import uuid
+    td = "/var/tmp/sverif-td-%d-%s" % (os.getpid(), uuid.uuid4().hex[:10])
     shutil.rmtree(td, ignore_errors=True)
     os.makedirs(out, exist_ok=True)
     env = dict(os.environ)
